@@ -244,14 +244,31 @@ def run_driver(lines):
     return p.returncode, outs, p.stderr
 
 
+def _norm(x):
+    """canonical form: object keys sorted; lists under a key ending in `_set` are multisets"""
+    if isinstance(x, dict):
+        out = {}
+        for k, v in x.items():
+            v = _norm(v)
+            if k.endswith("_set") and isinstance(v, list):
+                v = sorted(v, key=lambda e: json.dumps(e, sort_keys=True))
+            out[k] = v
+        return out
+    if isinstance(x, list):
+        return [_norm(e) for e in x]
+    return x
+
+
 def canon(x):
-    return json.dumps(x, sort_keys=True, separators=(",", ":"))
+    return json.dumps(_norm(x), sort_keys=True, separators=(",", ":"))
 
 
 def label_of(case):
     r = case.get("r")
     if isinstance(r, dict) and r:
         k = sorted(r.keys())[0]
+        if isinstance(r.get("ret"), str):
+            k = "ret=" + r["ret"]
         if "panic" in r:
             k = "panic"
         return f'{case["op"]}:{k}'
